@@ -224,13 +224,30 @@ func run(e *core.Env) {
 	// V has a stub tun device in half of the runs, so that authenticated
 	// traffic reaches the inner-packet checks instead of the rejected path.
 	vTun := tp.Chance(1, 2)
+	// In a quarter of the runs V is configured to connect on its own to routers it hears
+	// about (the shipped generator writes autoConnect: true): what announcements put into the
+	// router records is then read by the connect manager, a worker of its own that sits in
+	// connection attempts for simulated seconds.
+	auto := tp.Chance(1, 4)
+	minAuto := []int{0, 1, 3, 25}[tp.Intn(4)]
 	mk := func(name string, i int) *linkpair.Stack {
 		id := ident.Get(ident.Routable, perm[i])
 		st := node.BaseStore(id)
+		if name == "V" && auto {
+			st.Router.AutoConnect = true
+			st.Router.MinAutoConnect = minAuto
+		}
 		return linkpair.NewStackTun(e, name, id, st, true, name == "V" && vTun)
 	}
 	w.V, w.M, w.H = mk("V", 0), mk("M", 1), mk("H", 2)
 	V, M, H := w.V.Node, w.M.Node, w.H.Node
+	fab := linkpair.NewFabric(w.cn)
+	if auto {
+		fab.DialLatency = time.Duration(1+tp.Intn(3000)) * time.Millisecond
+		fab.Register("m.example", w.M.Listener)
+		V.Peering.AddProtocol("sim", fab.Protocol())
+		e.Probe("victim_connects_on_its_own")
+	}
 	lM := w.connect(w.M, w.V)
 	lH := w.connect(w.H, w.V)
 	if lM == nil || lH == nil {
@@ -858,6 +875,92 @@ func run(e *core.Env) {
 		}
 		w.panics()
 
+		// ---- V dials a router it heard about; the router is announced again meanwhile ----
+		// M relays (validly signed) announcements of a router X that V has no link to. X's public
+		// info names listeners and hosts; V's connect manager picks X up at its next round and
+		// dials. While an attempt is under way M delivers a newer announcement of X: without
+		// public info, with empty lists, with fewer or other entries.
+		if auto && tp.Chance(1, 2) {
+			x := ident.Get(ident.Routable, 30+tp.Intn(4))
+			genInfo := func() *m.RouterInfo {
+				info := &m.RouterInfo{Version: "x"}
+				for i, n := 0, 1+tp.Intn(3); i < n; i++ {
+					info.Listeners = append(info.Listeners, fmt.Sprintf("sim:%d", 1+tp.Intn(9)))
+				}
+				for i, n := 0, 1+tp.Intn(3); i < n; i++ {
+					info.IANA = append(info.IANA, []string{"m.example", "a.example", "b.example", "192.0.2.7", "c.example"}[tp.Intn(5)])
+				}
+				return info
+			}
+			announceX := func(info *m.RouterInfo) bool {
+				amsg := router.AnnouncePingMsg{Info: info, ReturnLabel: m.SwitchLabel(1 + tp.Intn(100)), Expires: time.Now().Add(time.Hour)}
+				inner, _ := cbor.Marshal(&amsg)
+				hdr := router.PingHeader{PingID: uint64(tp.Uint32()) + 1, PingType: "announce", AddrHash: x.Hash, KeyType: x.Type, PublicKey: x.PublicKey}
+				hd, _ := cbor.Marshal(&hdr)
+				abody := append([]byte{1, byte(len(hd))}, append(hd, inner...)...)
+				af, aerr := M.Inst.Builder.NewFrameV1(x.IP, m.RouterAddress, frame.RouterHopPingDeprecated, nil, abody, nil)
+				if aerr != nil {
+					return false
+				}
+				af.SetTTL(0)
+				af.SetSequenceTime(time.Now().Round(time.Millisecond))
+				_ = af.SignRaw(x.PrivateKey)
+				ctx := make([]byte, 88)
+				copy(ctx[:16], x.IP.AsSlice())
+				m.PutUint64(ctx[16:24], uint64(af.SequenceTime().UnixMilli()))
+				copy(ctx[24:], af.AuthData())
+				at := router.AnnouncePingAttachment{Router: M.ID.PublicAddress, Delay: uint16(tp.Intn(50)), ForwardLabel: m.SwitchLabel(1 + tp.Intn(127)), ReturnLabel: m.SwitchLabel(1 + tp.Intn(127))}
+				data, _ := cbor.Marshal(at)
+				sig, _ := M.ID.SignWithContext(data, ctx)
+				if err := af.SetAppendixData(append(data, sig...)); err != nil {
+					af.ReturnToPool()
+					return false
+				}
+				af.SetTTL(30)
+				sendFromM(af)
+				return true
+			}
+			w.what = "announcement of a router with listeners, relayed by M"
+			if announceX(genInfo()) {
+				w.panics()
+				if sr, err := V.Storage.GetRouter(x.IP); err == nil && sr != nil && sr.PublicInfo != nil {
+					e.Probe("victim_knows_a_router_with_listeners")
+				}
+				started := fab.StartedCount()
+				if tp.Chance(1, 2) {
+					V.Peering.TriggerPeering() // what the router does itself whenever it loses a link
+				}
+				for i := 0; i < 650 && fab.StartedCount() == started; i++ {
+					w.runFor(100*time.Millisecond, 2000)
+				}
+				if fab.StartedCount() > started {
+					e.Probe("victim_dials_a_router_it_heard_about")
+					// part of the attempt's time passes, then the newer announcement arrives
+					w.runFor(time.Duration(tp.Intn(int(fab.DialLatency/time.Millisecond)+1))*time.Millisecond, 2000)
+					var info2 *m.RouterInfo
+					kind := tp.Intn(5)
+					switch kind {
+					case 0:
+					case 1:
+						info2 = &m.RouterInfo{Version: "y"}
+					case 2:
+						info2 = genInfo()
+						info2.Listeners = info2.Listeners[:1]
+						info2.IANA = nil
+					default:
+						info2 = genInfo()
+					}
+					w.what = fmt.Sprintf("a newer announcement of a router (public info kind %d) while V's connect manager dials it", kind)
+					if announceX(info2) {
+						e.Fault("record_changed_while_dialled")
+					}
+					w.runFor(4*fab.DialLatency+2*time.Second, 5000)
+					w.drain(2000)
+					w.panics()
+				}
+			}
+		}
+
 		// ---- a peer that stops reading (a tenth of the batches) ----
 		// M takes no more bytes from its connection with V while a good thousand frames for M
 		// arrive at V over another link. V's queue towards M fills up; what V cannot queue it has to shed - it must go on serving
@@ -944,7 +1047,22 @@ func run(e *core.Env) {
 	// shows when the router is told to stop and one of its workers is still there two
 	// simulated minutes later.)
 	_ = w.V.Listener.Close() // as the protocol's Stop does; the accept loop ends with its listener
-	if !V.Kill() {
+	killed := false
+	if auto {
+		// V's connect manager may be in the middle of a connection attempt of its own. The
+		// routers it talks to are alive and go on answering while V stops: the network keeps
+		// delivering during the two minutes V's workers are given.
+		res := make(chan bool, 1)
+		go func() { res <- V.Kill() }()
+		for i := 0; i < 150 && len(res) == 0; i++ {
+			w.runFor(time.Second, 5000)
+		}
+		simnet.Wait()
+		killed = <-res
+	} else {
+		killed = V.Kill()
+	}
+	if !killed {
 		if os.Getenv("VERIF_DEBUG_STACKS") != "" {
 			buf := make([]byte, 1<<20)
 			buf = buf[:runtime.Stack(buf, true)]
